@@ -86,9 +86,10 @@ theorem nostuck_step (s : St) (e : Ev) (st : Started) (hw : JobsWF s) (h : NoStu
 theorem tagDone_clears (s : St) (st : Started) (name : String) (snap : Tag) (held result : List Nat)
     (ot : Tag)
     (hj : s.jTag = some (name, snap, held)) (ht : sget s.tags name = some ot) (hd : ot.defn = snap.defn)
+    (hg : ot.gen = snap.gen) -- CHANGED (gen)
     (hm : s.upd = [] ∧ s.rst = [] ∧ s.add = []) :
     ∃ t, sget (step s (.tagDone name result) st).1.tags name = some t ∧ t.unc = [] :=
-  Pk.Proofs.MgrSettle.tagDone_clears s st name snap held result ot hj ht hd hm
+  Pk.Proofs.MgrSettle.tagDone_clears s st name snap held result ot hj ht hd hg hm
 
 /-- the merge eligibility scan terminates with an offset inside the list -/
 theorem mergeOffset_bound (s : St) (i : Nat) (h : mergeOffset s = some i) : i < s.idx.length :=
